@@ -38,6 +38,22 @@ impl Item {
 pub fn gen_fixed(rng: &mut Rng, code: u8) -> Item {
     let mut hdr = MsgHeader::realistic(rng, code);
     hdr.mtype = code;
+    // a fixed frame occupies 2432 bytes whatever its header says about sizes and segments
+    match rng.below(6) {
+        0 => hdr.size = 0,
+        1 => hdr.size = rng.range(0, 0xFFFE) as u16,
+        2 => {
+            hdr.seg_count = rng.u16();
+            hdr.seg_num = rng.u16();
+        }
+        _ => {}
+    }
+    if code == 0 && rng.chance(1, 2) {
+        // the all-zero frame (padding as some archives carry it): type 0, size 0, no date
+        let bytes = vec![0u8; enc::FRAME];
+        let hdr = MsgHeader { rpg: [0; 12], size: 0, channel: 0, mtype: 0, seq: 0, date: 0, time: 0, seg_count: 0, seg_num: 0 };
+        return Item::Fixed { hdr, bytes };
+    }
     let body: Vec<u8> = match code {
         2 => enc::encode_halfwords(&enc::gen_rda_status_in_domain(rng)),
         5 => {
